@@ -148,7 +148,7 @@ def from_phase_and_exponent(
     coefficient = 1j ** (2 * half_turns * exponent)
     coefficient = (
         complex(coefficient)
-        if isinstance(coefficient, sympy.Expr) and coefficient.is_complex
+        if isinstance(coefficient, sympy.Expr) and not coefficient.free_symbols
         else coefficient
     )
     return GlobalPhaseGate(coefficient)
